@@ -785,31 +785,35 @@ def havingKeys : List HavingRef → List String
   | .key c :: rest => c :: havingKeys rest
   | .agg _ _ :: rest => havingKeys rest
 
+/-- HAVING: `transform_expression` with `allow_aggregates = true` on a fresh state -/
+def lowerHavingOpt : Option PExpr → LRes (Option (Expr × HState))
+  | none => .ok none
+  | some h =>
+    match lowerHaving h {} with
+    | .ok r => .ok (some r)
+    | .err e => .err e
+    | .panic s => .panic s
+
+/-- GROUP BY parts: each without aggregates -/
+def lowerGroupBy : Option (List PExpr) → LRes (Option (List Expr))
+  | none => .ok none
+  | some parts =>
+    match lowerPlainList parts with
+    | .ok ps => .ok (some ps)
+    | .err e => .err e
+    | .panic s => .panic s
+
 /-- `create_aggregate_statement` (order of the steps as in the code: projections, WHERE, HAVING, join, GROUP BY) -/
 def lowerAggregateStmt (q : PSelect) : LRes LStmt :=
   match lowerItems q.projections 0 with
   | .ok items =>
     match lowerOpt lowerPlain q.filter with
     | .ok filter =>
-      let having : LRes (Option (Expr × HState)) := match q.having with
-        | none => .ok none
-        | some h =>
-          match lowerHaving h {} with
-          | .ok r => .ok (some r)
-          | .err e => .err e
-          | .panic s => .panic s
-      match having with
+      match lowerHavingOpt q.having with
       | .ok having =>
         match lowerJoin q.loc q.fromTable q.join with
         | .ok join =>
-          let groupBy : LRes (Option (List Expr)) := match q.groupBy with
-            | none => .ok none
-            | some parts =>
-              match lowerPlainList parts with
-              | .ok ps => .ok (some ps)
-              | .err e => .err e
-              | .panic s => .panic s
-          match groupBy with
+          match lowerGroupBy q.groupBy with
           | .ok groupBy =>
             let visit := (having.map (·.2.visit)).getD []
             .ok (.aggregate { items, filter, groupBy := groupBy.map (·.map (fun e => (e, canon e))),
@@ -832,14 +836,16 @@ def anyAggregates (ps : List (Option (List Char) × PExpr)) : Bool := ps.any (fu
 
 def bytesOf (cs : List Char) : List Nat := Utf8.encode cs
 
+def lowerStep : PJsonStep → JsonStep
+  | .field n => .field (bytesOf n)
+  | .index i => .index i
+
 /-- `JsonAccess::from_linear` (the `unwrap` on an empty list is a panic site; the parser never builds one) -/
 def lowerParsing : PColParsing → LRes Extract.Parsing
   | .regex r => .ok (.regex { pattern := bytesOf r.pattern, group := r.group })
   | .multiRegex rs => .ok (.multi (rs.map (fun r => { pattern := bytesOf r.pattern, group := r.group })))
   | .json path =>
-    match JsonAccess.fromLinear (path.map (fun
-      | .field n => JsonStep.field (bytesOf n)
-      | .index i => JsonStep.index i)) with
+    match JsonAccess.fromLinear (path.map lowerStep) with
     | some a => .ok (.json a)
     | none => .panic "JsonAccess::from_linear unwrap"
 
